@@ -3,7 +3,7 @@ CONSTANTS N = 2
           AdfSetKind = "all"
           TwoValMode = FALSE
           Contract = TRUE
-          FixedFoldC = FALSE
+          FixedFoldC = TRUE
 INVARIANTS Exact LockStep Bounded
 PROPERTIES Terminates
 CHECK_DEADLOCK FALSE
